@@ -170,6 +170,7 @@ def run_schedule(cfg: dict[str, typing.Any], policy: tuple[typing.Any, ...]) -> 
         out["points"] = S.points
         out["all_points"] = S.all_points
         out["point_info"] = S.point_info
+        out["trace"] = list(S.trace)
         out["switches"] = list(S.switches)
         out["sites"] = S.point_sites
         # who was waiting in the queue when close() swapped it (for the finding's precondition)
@@ -445,6 +446,37 @@ def run_shard(ctx: Ctx, rec: Recorder) -> None:
             if n == 2:
                 rec.sample({"cfg": cfg, "decisions": decisions, "switch_sites": [(c, l) for _, _, c, l in o["switches"]], "results": o["results"]})
     rec.exhaustive_parts.append(f"all schedules with <= {bound} preemption(s) at line granularity inside {SHARED_FUNCS} (capped at {per_cfg} per configuration)")
+    # (a1') directed family for close(): one worker is preempted inside urlopen (so that both hold a connection, or one
+    # waits) and then close() runs, to completion, at every later statement of the shared-state functions
+    for cfg in mine:
+        if not cfg["closer"] or cfg["workers"] != 2 or (ctx.quick and cfg["reqs"] != 1):
+            continue
+        if ctx.out_of_time(0.6):
+            rec.count("directed_cut_short_by_budget")
+            break
+        closer_idx = cfg["workers"]
+
+        def expand(decisions: list[tuple[int, int]], p: int, t: int, o: typing.Any, closer_idx: int = closer_idx, narrow: bool = ctx.quick) -> bool:
+            tr = o["trace"]
+            if not decisions:
+                if t == closer_idx:
+                    return True
+                if not tr[p][1].endswith("HTTPConnectionPool.urlopen"):
+                    return False
+                if not narrow:
+                    return True
+                # quick tier: only the lease boundary (the statement right after this thread's _get_conn returned)
+                return p > 0 and tr[p - 1][0] == tr[p][0] and tr[p - 1][1].endswith("_get_conn")
+            return t == closer_idx and decisions[0][1] != closer_idx
+
+        def run_one2(policy: tuple[typing.Any, ...], cfg: dict[str, typing.Any] = cfg) -> tuple[list[tuple[int, list[int]]], typing.Any]:
+            o = run_schedule(cfg, policy)
+            return o["point_info"], o
+
+        for decisions, o in sched.explore(run_one2, bound=2, max_runs=ctx.pick(700, 6000), expand=expand):
+            rec.case(["close-directed", cfg, decisions], nontrivial=len(decisions) > 0)
+            rec.mon("close_directed_schedule")
+            judge(rec, cfg, ["replay", decisions], o)
     # (b) real-scheduler stress with the stdlib queue
     for k in range(ctx.pick(1, 4)):
         scfg = {"workers": ctx.pick(6, 12), "reqs": ctx.pick(40, 150), "maxsize": [1, 2, 3][(ctx.shard + k) % 3], "block": (ctx.shard + k) % 2 == 0, "closer": (ctx.shard + k) % 4 == 1, "yield_p": 0.02}  # (closer only on non-blocking pools: the blocking case is the recorded hang)
